@@ -42,6 +42,13 @@ def oab_tamper(res, tier, rng):
             nb_ = rng.randrange(1, 3)
             f, plain = oabfmt.build_full(rng, [rng.choice([100, 5000, 40000]) for _ in range(nb_)], kinds=([1] * nb_ if padded else None),
                                          pad_fn=(lambda i_, ln: padf(ln)) if padded else None, btypes=bt); base = None; lab = "full-padded" if padded else "full"
+        if i == 0:
+            # directed: one stored-type LZX block whose CRC is exactly 0 (a legitimate value, not "no checksum"): the last four data bytes are the
+            # little-endian CRC register of what precedes them
+            f, plain = oabfmt.build_full(rng, [64], kinds=[1], pad=[0], btypes=[3]); base = None; lab = "full-zero-crc"; padded = False; patch = False; bufsz = 4096
+            tail = struct.pack("<I", oabfmt.regcrc(plain[:-4]))
+            if f.endswith(plain[-4:]) and oabfmt.regcrc(plain[:-4] + tail) == 0:
+                plain = plain[:-4] + tail; f = bytearray(f[:-4] + tail); struct.pack_into("<I", f, 16 + 12, 0); f = bytes(f)
         hdr = 28 if patch else 16
         # walk the blocks
         pos = hdr; blocks = []
